@@ -33,7 +33,7 @@ func genHistory(rng interface{ Intn(int) int }, chain, nops int, deletes bool) [
 	next := uint64(1 + rng.Intn(3))
 	for j := 0; j < nops && next <= uint64(chain); j++ {
 		switch x := rng.Intn(100); {
-		case x < 55 || len(ops) == 0:
+		case x < 48 || len(ops) == 0:
 			var hs []uint64
 			sz := 1 + rng.Intn(5)
 			for k := 0; k < sz && next <= uint64(chain); k++ {
@@ -41,6 +41,8 @@ func genHistory(rng interface{ Intn(int) int }, chain, nops int, deletes bool) [
 				next++
 			}
 			ops = append(ops, c04Op{Op: "append", Hs: hs})
+		case x < 60 && deletes:
+			ops = append(ops, c04Op{Op: "append-next", K: 1 + rng.Intn(5)})
 		case x < 65:
 			ops = append(ops, c04Op{Op: "sync"})
 		case x < 85 && deletes:
@@ -76,6 +78,9 @@ func TestC06(t *testing.T) {
 		for _, side := range []string{"head", "tail", "all"} {
 			p := c06P{Cfg: cfg, Chain: 16, Ops: []c04Op{{Op: "append", Hs: []uint64{1, 2, 3, 4, 5, 6}}, {Op: "append", Hs: []uint64{7, 8, 9, 10, 11, 12}}, {Op: "sync"}, {Op: "delete", Side: side, K: 4}, {Op: "append", Hs: []uint64{13, 14}}}}
 			mon.Emit(r, "crash", p, "crash")
+			// the deleted end is appended again and the store restarted cleanly
+			p2 := c06P{Cfg: cfg, Chain: 20, Ops: []c04Op{{Op: "append", Hs: []uint64{1, 2, 3, 4, 5, 6}}, {Op: "append", Hs: []uint64{7, 8, 9, 10, 11, 12}}, {Op: "sync"}, {Op: "delete", Side: side, K: 4}, {Op: "append-next", K: 4}, {Op: "restart", Fresh: side == "tail"}, {Op: "append-next", K: 2}}}
+			mon.Emit(r, "crash", p2, "crash")
 		}
 	}
 	// transient faults: every placement of N consecutive failing writes (append-only histories)
@@ -125,6 +130,15 @@ func (e *env) runHistory(ops []c04Op, strictDeletes bool) ([]string, bool) {
 		case "append":
 			if err := e.appendHs(op.Hs...); err != nil {
 				c.Violation("append-fails", fmt.Sprintf("Append(%v): %v", op.Hs, err), nil)
+				return kinds, false
+			}
+		case "append-next":
+			hs, ok := e.nextAbove(op.K)
+			if !ok {
+				continue
+			}
+			if err := e.appendHs(hs...); err != nil {
+				c.Violation("append-fails", fmt.Sprintf("Append(%v): %v", hs, err), nil)
 				return kinds, false
 			}
 		case "sync":
